@@ -1,6 +1,7 @@
 use cfg_aliases::cfg_aliases;
 
 fn main() {
+    println!("cargo::rustc-check-cfg=cfg(compio_verif)");
     cfg_aliases! {
         aix: { target_os = "aix" },
         linux: { target_os = "linux" },
